@@ -160,13 +160,15 @@ where
         self.validity_checker = Some(validity_checker);
         self.tree.clear();
 
-        // Initialise the tree with the start state.
-        let start_state = self.problem_def.as_ref().unwrap().start_states[0].clone();
-        let start_node = Node {
-            state: start_state,
-            parent_index: None,
-        };
-        self.tree.push(start_node);
+        // Initialise the tree with the start state. With an empty start list the tree stays empty
+        // and solve() reports InvalidStartState.
+        if let Some(start_state) = self.problem_def.as_ref().unwrap().start_states.first() {
+            let start_node = Node {
+                state: start_state.clone(),
+                parent_index: None,
+            };
+            self.tree.push(start_node);
+        }
     }
 
     fn solve(&mut self, timeout: Duration) -> Result<Path<S>, PlanningError> {
@@ -182,8 +184,9 @@ where
             .validity_checker
             .as_ref()
             .ok_or(PlanningError::PlannerUninitialised)?;
-        if !vc.is_valid(&self.tree[0].state) {
-            return Err(PlanningError::InvalidStartState);
+        match self.tree.first() {
+            Some(root) if vc.is_valid(&root.state) => {}
+            _ => return Err(PlanningError::InvalidStartState),
         }
 
         let mut rng = self
